@@ -586,7 +586,8 @@ Definition about_sess (s : N) (x : cb) : bool :=
 Definition about_conn (c : N) (x : cb) : bool :=
   match x with
   | CbConnOpen c' | CbConnClose c' | CbReq c' | CbReqS c' _ | CbPktB c' _ | CbPktE c' => c' =? c
-  | CbSessOpen _ c' => c' =? c
+  (* CbSessOpen s c' names c' as the creator of s but is a callback of the SESSION, delivered by the session's
+     goroutine; it may follow the close notification of c' (see astep) and is not "about" the connection *)
   | _ => false
   end.
 
@@ -643,7 +644,7 @@ Proof.
   intros (Hl1 & Hl2) H. unfold busyv, srunv. destruct x; cbn [astep pend_conn pend_sess] in *.
   - destruct (c =? nlen (a_conns a)); inversion H; subst. cbn [a_cbusy a_srun]. split; intros; [apply nnth_snoc_default|reflexivity].
   - destruct (nnth c (a_conns a)) as [[|[p|p|]]|]; try discriminate. destruct (nnth c (a_cbusy a)) as [[|p]|]; try discriminate. inversion H; subst. auto.
-  - destruct (nnth c (a_conns a)) as [[|[p|p|]]|]; try discriminate.
+  - destruct (nnth c (a_conns a)) as [v|]; try discriminate.
     destruct (s =? nlen (a_sesss a)); inversion H; subst. cbn [a_cbusy a_srun]. split; intros; [reflexivity|apply nnth_snoc_default].
   - destruct (nnth s (a_sesss a)) as [[|[p|p|]]|]; try discriminate. destruct (nnth s (a_srun a)) as [[|p]|]; try discriminate.
     destruct (forallb _ _); inversion H; subst. auto.
@@ -707,7 +708,7 @@ Proof.
   unfold sdone. intros H (Hs & Hr). destruct x; cbn [astep about_sess] in *.
   - destruct (c =? nlen (a_conns a)); inversion H; subst. auto.
   - destruct (nnth c (a_conns a)) as [[|[p|p|]]|]; try discriminate. destruct (nnth c (a_cbusy a)) as [[|p]|]; try discriminate. inversion H; subst. auto.
-  - destruct (nnth c (a_conns a)) as [[|[p|p|]]|]; try discriminate.
+  - destruct (nnth c (a_conns a)) as [v|]; try discriminate.
     destruct (N.eqb_spec s0 (nlen (a_sesss a))) as [->|]; [|discriminate]. inversion H; subst. cbn [a_sesss a_srun]. split.
     + split; now apply nnth_app_l.
     + apply nnth_lt_Some in Hs. destruct (N.eqb_spec (nlen (a_sesss a)) s); [lia|reflexivity].
@@ -763,9 +764,8 @@ Proof.
   - destruct (nnth c0 (a_conns a)) as [[|[p|p|]]|] eqn:E; try discriminate. destruct (nnth c0 (a_cbusy a)) as [[|p]|]; try discriminate.
     inversion H; subst. cbn [a_conns a_cbusy].
     destruct (N.eqb_spec c0 c) as [->|Hne]; [congruence|]. split; [split; [now rewrite nnth_nupd_other|assumption]|reflexivity].
-  - destruct (nnth c0 (a_conns a)) as [[|[p|p|]]|] eqn:E; try discriminate.
-    destruct (s =? nlen (a_sesss a)); [|discriminate]. inversion H; subst. split; [auto|].
-    destruct (N.eqb_spec c0 c) as [->|]; [congruence|reflexivity].
+  - destruct (nnth c0 (a_conns a)) as [v|] eqn:E; try discriminate.
+    destruct (s =? nlen (a_sesss a)); [|discriminate]. inversion H; subst. split; [auto|reflexivity].
   - destruct (nnth s (a_sesss a)) as [[|[p|p|]]|]; try discriminate. destruct (nnth s (a_srun a)) as [[|p]|]; try discriminate.
     destruct (forallb _ _); [|discriminate]. inversion H; subst. auto.
   - destruct (nnth c0 (a_conns a)) as [[|[p|p|]]|] eqn:E; try discriminate. inversion H; subst.
